@@ -62,6 +62,8 @@ def cond_casts():
     out = []
     base = {"A": {"zz": "zz"}}
     pairs = [(a, b) for a in NUM_DOCS[:11] for b in (5, 5.5, "5", True, 6, -3)] + [(a, a) for a in NUM_DOCS]
+    big = [U(BIG), U(18446744073709551615), I(5), U(5), I(-3), U(BIG + 1), I(9223372036854775807), U(9223372036854775807)]
+    pairs += [(a, b) for a in big for b in big]
     docs2 = [{"f": a, "g": b} for a, b in pairs if a is not None and b is not None] + [{"f": 5}, {"g": 5}, {}, {"f": None, "g": 5}]
     docs1 = [{"f": a} for a in NUM_DOCS if a is not None] + [{"f": None}, {}]
     for op in OPS:
@@ -88,9 +90,10 @@ def quantified_cast_bodies():
     out = []
     bodies = [{"str(f)": ["5*", "*5", "*.*"]}, {"str(f)": ["?^5", "?5$", "?\\."]}, {"str(f)": ["true", "tr*", "*ue"]},
               {"f": ["5*", "*5", "*.*"]}, {"f": ["?^5", "?5$"]}, {"str(f)": ["i5*", "i*5"]}, {"str(f)": ["5", "5.5", "true"]},
-              {"str(f)": ["5*", "?5$", "*5"]}]
+              {"str(f)": ["5*", "?5$", "*5"]}, {"str(f)": ["?^t", "?e$", "?ru"]}, {"str(f)": ["?^-", "?5$"]}, {"str(f)": ["-*", "*5"]}]
     vals = [5, I(5), U(5), 5.5, Fl(fbits(5.0)), True, False, "5", "5.5", "true", "55", [5, 5.5], [True, "5"], ["5", 5.5, True], [], None, {"x": 1},
-            U(BIG), Fl(fbits(1e30)), -3, "5.0"]
+            U(BIG), Fl(fbits(1e30)), -3, "5.0", I(-5), [I(5), I(-5)], [I(-5), None, {"x": 1}], [True, False], [None, {"x": 1}], [Fl(fbits(-5.0))],
+            [U(5), U(BIG)], "-5", ["-5", I(5)]]
     docs = [{"f": v} for v in vals if v is not None] + [{"f": None}, {}]
     for b in bodies:
         for c in ("all(A)", "of(A, 1)", "of(A, 2)", "of(A, 3)", "A", "not all(A)", "not of(A, 2)"):
@@ -144,6 +147,30 @@ def nested_matrix():
     return out
 
 
+def nested_and_merge():
+    """identifiers that nest the same field, joined by `and`: shake_1 merges the blocks into ONE
+    nested block over all-of-or (and matrix then turns the or-of-ands into a table that the solver
+    has to evaluate per array element)"""
+    out = []
+    docs = [{"n": {"f": "a", "g": "b"}}, {"n": [{"f": "a", "g": "b"}, {"f": "c", "g": "d"}]}, {"n": [{"f": "a", "g": "d"}, {"f": "c", "g": "b"}]},
+            {"n": [{"f": "a", "g": "b"}]}, {"n": [{"f": "a", "g": "b", "h": "e"}, {"f": "c", "g": "d", "h": "e"}]}, {"n": []}, {"n": [1, None, "x"]},
+            {"n": [{"f": "a"}, {"g": "b"}, {"f": "c", "g": "d"}]}, {"n": {"f": "c", "g": "d"}}, {"n": [{"f": "c", "g": "d"}, {"f": "a", "g": "b"}, 7]},
+            {"n": "x"}, {"n": None}, {}, {"n": [{"f": ["a", "c"], "g": ["b", "d"]}]}, {"n": [[{"f": "a", "g": "b"}]]}, {"h": "e"},
+            {"n": [{"f": "a", "g": "b"}, {"f": "c", "g": "d"}], "h": "e"}, {"n": [{"f": "a", "g": 1}, {"f": "c", "g": 2}]}]
+    blocks = [({"f": "a", "g": "b"}, {"f": "c", "g": "d"}, {"f": "e", "g": "f"}),
+              ({"f": "a*", "g": "*b"}, {"f": "c", "g": "d"}, {"h": "e"}),
+              ({"f": "a", "g": 1}, {"f": "c", "g": ">=2"}, {"f": "c"}),
+              ({"f": "a", "not(g)": "b"}, {"f": "c", "g": "d"}, {"g": "d"})]
+    for b in blocks:
+        ids = {"A": {"n": b[0]}, "B": {"n": b[1]}, "C": {"n": b[2]}, "E": {"h": "e"}}
+        for cond in ("A and B", "A and B and C", "A and B and E", "not (A and B)", "A and B or C", "(A and B) or E", "all(A) and B", "A and not B",
+                     "A or B", "not (A or B)"):
+            out.append((dict(ids, condition=cond), docs))
+        out.append(({"X": {"n": b[0], "m": {"n": b[1]}}, "Y": {"m": {"n": b[2]}}, "condition": "X and Y"},
+                    docs + [{"n": d.get("n"), "m": {"n": d.get("n")}} for d in docs if "n" in d]))
+    return out
+
+
 def sort_comparators():
     out = []
     kinds = {"starts": ["a*", "bb*", "ccc*"], "ends": ["*a", "*bb", "*ccc"], "contains": ["*a*", "*bb*", "*ccc*"], "exact": ["a", "bb", "ccc"],
@@ -192,7 +219,7 @@ def loader_errors():
 
 
 FAMILIES = [("scalar_casts", scalar_casts), ("list_casts", list_casts), ("cond_casts", cond_casts),
-            ("quantified_cast_bodies", quantified_cast_bodies), ("many_needles", many_needles), ("nested_matrix", nested_matrix),
+            ("quantified_cast_bodies", quantified_cast_bodies), ("many_needles", many_needles), ("nested_matrix", nested_matrix), ("nested_and_merge", nested_and_merge),
             ("sort_comparators", sort_comparators), ("already_optimised", already_optimised), ("loader_errors", loader_errors)]
 
 
